@@ -33,3 +33,11 @@ def load(property_id: str):
         elif f.get("status") == "fixed":
             fixed.append(f)
     return known, fixed
+
+
+def evidence_dir() -> str:
+    return os.environ.get("VERIF_EVIDENCE_DIR") or os.path.join(root(), "evidence")
+
+
+def replay_dir() -> str:
+    return os.environ.get("VERIF_REPLAY_DIR") or os.path.join(root(), "replays")
